@@ -17,6 +17,8 @@ type codecOp struct {
 	Field string // field path touched ("" if unknown)
 	Width int64  // constant width in bytes, -1 variable
 	Count int64  // element count for Ints (constant) or -1
+	Put   bool   // encoder-side operation
+	Src   ssa.Value // encoder side: the value written
 	Pos   token.Pos
 }
 
@@ -116,10 +118,34 @@ func dstField(v ssa.Value) string {
 
 var marshalWidth = map[string]int64{"PutInt": 8, "GetInt": 8, "PutInt32": 4, "GetInt32": 4}
 
+// takesCodec: fn has a marshal.Enc / marshal.Dec parameter.
+func takesCodec(fn *ssa.Function) bool {
+	for _, p := range fn.Params {
+		if n := derefNamed(p.Type()); n != nil && n.Obj().Pkg() != nil && strings.HasSuffix(n.Obj().Pkg().Path(), "tchajed/marshal") {
+			return true
+		}
+	}
+	return false
+}
+
 // codecOps extracts the marshal.Enc/Dec operation sequence of fn in block
 // order.  straight reports whether all operations lie on one straight path
 // (each op's block dominates the next one's).
 func codecOps(fn *ssa.Function) (ops []codecOp, capacity int64, straight bool) {
+	return codecOpsD(fn, 0)
+}
+
+func joinPath(a, b string) string {
+	if a == "" {
+		return b
+	}
+	if b == "" {
+		return a
+	}
+	return a + "." + b
+}
+
+func codecOpsD(fn *ssa.Function, depth int) (ops []codecOp, capacity int64, straight bool) {
 	capacity = -1
 	straight = true
 	var last *ssa.BasicBlock
@@ -130,6 +156,49 @@ func codecOps(fn *ssa.Function) (ops []codecOp, capacity int64, straight bool) {
 				continue
 			}
 			cal := call.Call.StaticCallee()
+			if cal != nil && depth < 2 && cal != fn && IsRepoFunc(cal) && cal.Blocks != nil {
+				// a helper that encodes/decodes a sub-structure: its operations, with the
+				// field paths prefixed by the sub-structure's path at this call
+				hops, hcap, hs := codecOpsD(cal, depth+1)
+				if len(hops) == 0 {
+					continue
+				}
+				if capacity < 0 {
+					capacity = hcap
+				}
+				pSrc := ""
+				for _, a := range call.Call.Args {
+					if p := srcField(a); p != "" {
+						pSrc = p
+						break
+					}
+				}
+				pDst := dstField(call)
+				for _, o := range hops {
+					if o.Put {
+						if pm, isP := stripConv(o.Src).(*ssa.Parameter); isP && o.Field == "" {
+							// the helper writes one of its parameters: the value is the argument
+							for i, q := range cal.Params {
+								if q == pm && i < len(call.Call.Args) {
+									o.Src = call.Call.Args[i]
+									o.Field = srcField(o.Src)
+								}
+							}
+						} else {
+							o.Field = joinPath(pSrc, o.Field)
+						}
+					} else {
+						o.Field = joinPath(pDst, o.Field)
+					}
+					o.Pos = call.Pos()
+					ops = append(ops, o)
+				}
+				if !hs || (last != nil && !last.Dominates(b)) {
+					straight = false
+				}
+				last = b
+				continue
+			}
 			if cal == nil || funcPkg(cal) == nil || !strings.HasSuffix(funcPkg(cal).Path(), "tchajed/marshal") {
 				continue
 			}
@@ -143,12 +212,13 @@ func codecOps(fn *ssa.Function) (ops []codecOp, capacity int64, straight bool) {
 			case "NewDec", "Finish":
 				continue
 			}
-			op := codecOp{Pos: call.Pos(), Width: -1, Count: -1}
+			op := codecOp{Pos: call.Pos(), Width: -1, Count: -1, Put: strings.HasPrefix(name, "Put")}
 			switch name {
 			case "PutInt", "PutInt32":
 				op.Kind = strings.TrimPrefix(name, "Put")
 				op.Width = marshalWidth[name]
 				op.Field = srcField(argN(call, 0))
+				op.Src = argN(call, 0)
 			case "GetInt", "GetInt32":
 				op.Kind = strings.TrimPrefix(name, "Get")
 				op.Width = marshalWidth[name]
